@@ -151,6 +151,18 @@ def configs(tier):
                         for th in THERMAL:
                             out.append({"formats": list(fs), "model": m, "backend": b, "shielding": sh, "cooling": th, "grainspec": bool(i % 2)})
                             i += 1
+    # single-line probes: a symbol must be declared because the reaction that uses it is there, not because some
+    # other reaction type of the same file happens to register it.  Every data line alone; lines with ice or grain
+    # species under every dust model, gas-phase lines without one
+    single_backends = ["dense"] if tier == "quick" else BACKENDS
+    for f in ("kida", "umist", "leeds", "uclchem", "naunet"):
+        for ln, tag in probe_lines(f, True):
+            if ln.startswith("@"):
+                continue
+            surf = any(x in ln for x in ("#", "GRAIN")) or (f == "leeds" and re.search(r"\bG[A-Z]", ln) is not None) or tag in ("ucl:FREEZE", "ucl:FREEZE:ion", "ucl:FREEZE:electron", "nau:200", "leeds:7")
+            for m in (MODELS[1:] if surf else [""]):
+                for b in single_backends:
+                    out.append({"formats": [f], "model": m, "backend": b, "shielding": {}, "cooling": [], "grainspec": True, "only": tag})
     return out
 
 
@@ -172,6 +184,9 @@ def build_network(cfg):
     for fmt in cfg["formats"]:
         for ln, tag in probe_lines(fmt, cfg["grainspec"]):
             lines.append((ln, fmt, tag))
+    if cfg.get("only"):
+        # single-line probe: the directives of the file and exactly one data line
+        lines = [t for t in lines if t[0].startswith("@") or t[2] == cfg["only"]]
     refused = []
     kept = list(lines)
     for attempt in range(4):
@@ -214,7 +229,7 @@ def run_cfg(cfg):
 
     reset_globals()
     viols = []
-    label = f"{'+'.join(cfg['formats'])}|{cfg['model'] or 'none'}|{cfg['backend']}|sh={','.join(sorted(cfg['shielding'])) or '-'}|th={'on' if cfg['cooling'] else 'off'}|gs={int(cfg['grainspec'])}"
+    label = (f"only {cfg['only']}|" if cfg.get("only") else "") + f"{'+'.join(cfg['formats'])}|{cfg['model'] or 'none'}|{cfg['backend']}|sh={','.join(sorted(cfg['shielding'])) or '-'}|th={'on' if cfg['cooling'] else 'off'}|gs={int(cfg['grainspec'])}"
     try:
         net, refused, err = build_network(cfg)
     except HarnessError:
@@ -296,7 +311,7 @@ def run(ctx):
     return {
         "evaluations": nfiles,
         "distinct_nontrivial": len(cfgs),
-        "rule": "configuration space format-set x grain model x back-end x shielding tables x thermal (quick: single formats, shielding/thermal/grain-species rotated by index; thorough: + all 15 two-format mixtures, full cross); each configuration renders a probe network holding one reaction of every type the combination can produce; every src/*.cpp is passed to g++ -fsyntax-only",
+        "rule": "configuration space format-set x grain model x back-end x shielding tables x thermal (quick: single formats, shielding/thermal/grain-species rotated by index; thorough: + all 15 two-format mixtures, full cross); each configuration renders a probe network holding one reaction of every type the combination can produce; in addition every data line of every probe file alone (ice/grain lines under each dust model); every src/*.cpp is passed to g++ -fsyntax-only",
         "samples": cfgs[:: max(1, len(cfgs) // 5)][:6],
         "configurations": len(cfgs),
         "translation_units_compiled": nfiles,
